@@ -5,6 +5,7 @@ WARC recorder session, which appends every event's data to the record block) rec
 for a response is exactly the message's bytes on the wire.  Helper lemmas first.
 -/
 import Proofs.C08
+import Proofs.C17
 namespace Wpull.HttpWire
 open Wpull Wpull.Ftp
 
@@ -339,7 +340,104 @@ theorem revisit_block_is_wire_prefix (h : dc.Hom) (cfg : StreamCfg) (req : ReqIn
   rw [hr, List.take_take]
   exact List.take_prefix _ _
 
+/-! ### `_find_payload_offset`: the header block ends at the first *empty* line -/
+
+/-- a line as `readline` returns it: no LF but the final one -/
+def IsLine (l : Bytes) : Prop := ∃ b, l = b ++ [10] ∧ 10 ∉ b
+
+theorem findLF_of_not_mem : ∀ (b : Bytes), 10 ∉ b → findLF b = none
+  | [], _ => rfl
+  | c :: t, h => by
+    have hc : c ≠ 10 := fun e => h (by simp [e])
+    have ht : 10 ∉ t := fun e => h (by simp [e])
+    simp [findLF, hc, findLF_of_not_mem t ht]
+
+theorem splitLF_line {l : Bytes} (hl : IsLine l) (rest : Bytes) : splitLF (l ++ rest) = (l, rest) := by
+  obtain ⟨b, rfl, hb⟩ := hl
+  have hf : findLF (b ++ [10] ++ rest) = some b.length := by
+    rw [List.append_assoc, findLF_append_none (findLF_of_not_mem b hb)]
+    simp [findLF]
+  unfold splitLF
+  rw [hf]
+  simp only
+  have h1 : (b ++ [10] ++ rest).take (b.length + 1) = b ++ [10] := by
+    rw [List.take_append_of_le_length (by simp)]
+    exact List.take_of_length_le (by simp)
+  have h2 : (b ++ [10] ++ rest).drop (b.length + 1) = rest := by
+    rw [List.drop_append_of_le_length (by simp)]
+    simp
+  rw [h1, h2]
+
+/-- the end-of-header test of the recorder: only `\r\n` and `\n` are empty lines; a
+whitespace-only line (` \r\n`, `\t\n`, `\r\r\n`, …) is not -/
+def IsEmptyLine (l : Bytes) : Prop := l = [13, 10] ∨ l = [10]
+
+theorem payloadOffset_go_lines : ∀ (ls : List Bytes) (fuel off : Nat) (e rest : Bytes),
+    (∀ l ∈ ls, IsLine l ∧ ¬ IsEmptyLine l) → IsEmptyLine e →
+    (ls.flatten ++ e ++ rest).length < fuel →
+    payloadOffset.go fuel (ls.flatten ++ e ++ rest) off = off + ls.flatten.length + e.length := by
+  intro ls
+  induction ls with
+  | nil =>
+    intro fuel off e rest _ he hf
+    obtain ⟨f, rfl⟩ : ∃ f, fuel = f + 1 := ⟨fuel - 1, by omega⟩
+    have hle : IsLine e := by
+      rcases he with rfl | rfl
+      · exact ⟨[13], rfl, by simp⟩
+      · exact ⟨[], rfl, by simp⟩
+    have hne : (e ++ rest).isEmpty = false := by
+      rcases he with rfl | rfl <;> simp
+    simp only [List.flatten_nil, List.nil_append, payloadOffset.go, hne, Bool.false_eq_true, if_false,
+      splitLF_line hle rest, List.length_nil, Nat.add_zero]
+    rcases he with rfl | rfl <;> simp
+  | cons l t ih =>
+    intro fuel off e rest hls he hf
+    obtain ⟨f, rfl⟩ : ∃ f, fuel = f + 1 := ⟨fuel - 1, by omega⟩
+    have hl := hls l (by simp)
+    have hl1 : 1 ≤ l.length := by
+      obtain ⟨b, rfl, _⟩ := hl.1; simp
+    have hne : (l ++ (t.flatten ++ e ++ rest)).isEmpty = false := by
+      cases l with
+      | nil => simp at hl1
+      | cons x xs => simp
+    have hnot : (l == [13, 10] || l == [10]) = false := by
+      have := hl.2
+      unfold IsEmptyLine at this
+      simp only [not_or] at this
+      simp [this.1, this.2]
+    have hassoc : (l :: t).flatten ++ e ++ rest = l ++ (t.flatten ++ e ++ rest) := by simp
+    rw [hassoc]
+    simp only [payloadOffset.go, hne, Bool.false_eq_true, if_false, splitLF_line hl.1, hnot]
+    rw [ih f (off + l.length) e rest (fun l' hl' => hls l' (by simp [hl'])) he
+      (by rw [hassoc] at hf; simp at hf ⊢; omega)]
+    simp only [List.flatten_cons, List.length_append]
+    omega
+
+/-- **C04 `payloadOffset_first_empty_line`.**  For a recorded block that consists of lines
+`ls` none of which is empty — whitespace-only lines such as `b' \r\n'` included —, then an
+empty line `e` (`\r\n` or `\n`), then anything: `_find_payload_offset` is the position
+right after that first empty line, so a revisit block is the header block through its
+terminating empty line. -/
+theorem payloadOffset_first_empty_line (ls : List Bytes) (e rest : Bytes)
+    (hls : ∀ l ∈ ls, IsLine l ∧ ¬ IsEmptyLine l) (he : IsEmptyLine e) :
+    payloadOffset (ls.flatten ++ e ++ rest) = (ls.flatten ++ e).length ∧
+    revisitBlock (ls.flatten ++ e ++ rest) = ls.flatten ++ e := by
+  have h := payloadOffset_go_lines ls ((ls.flatten ++ e ++ rest).length + 1) 0 e rest hls he (by omega)
+  have hp : payloadOffset (ls.flatten ++ e ++ rest) = (ls.flatten ++ e).length := by
+    unfold payloadOffset
+    rw [h]; simp
+  refine ⟨hp, ?_⟩
+  unfold revisitBlock
+  rw [hp]
+  exact List.take_left' rfl
+
 /-! ## Non-vacuity -/
+
+/-- a whitespace-only line does not end the header block -/
+example : revisitBlock (lit "HTTP/1.1 200 OK\r\nX-A: 1\r\n \r\nContent-Length: 4\r\n\r\nbody") =
+    lit "HTTP/1.1 200 OK\r\nX-A: 1\r\n \r\nContent-Length: 4\r\n\r\n" := by decide
+example : IsLine (lit " \r\n") ∧ ¬ IsEmptyLine (lit " \r\n") := ⟨⟨lit " \r", rfl, by decide⟩, by unfold IsEmptyLine; decide⟩
+
 
 example : revisitBlock (lit "HTTP/1.1 200 OK\nX: a\n b\n\nbody\n\nmore") = lit "HTTP/1.1 200 OK\nX: a\n b\n\n" := by decide
 example : revisitBlock (decode idDecoder {} {} [] exMsg).notified = exMsg.bytes.take 38 := by decide
